@@ -139,6 +139,11 @@ def replay(args):
                 src = os.path.join(W, "p%d.asm" % k)
                 open(src, "w").write((" NAM P%d\n" % pid if cmd["named"] else "") + " ORG $0E00\nS LDA #%d\n RTS \n" % (pid % 200))
                 argv = [src, "--to_" + cmd["sw"], t] + (["--append"] if cmd["app"] else [])
+                if h.get("extra") and cmd["named"]:
+                    # the same command also writes its other kinds of output to OTHER (new) paths: what lands at t must not depend on that
+                    for x in ("bin", "cas", "dsk"):
+                        if x != cmd["sw"]:
+                            argv += ["--to_" + x, os.path.join(W, "extra%d.%s" % (k, x))]
                 code, out = run_main(assembler, argv)
             elif cmd["sw"] == "list":
                 code, out = run_main(file_util, [t, "--list"])
@@ -165,6 +170,10 @@ def replay(args):
                     argv += ["--files"] + sel
                 elif cmd["new"] != ids:
                     argv += ["--files"] + ([cat[i]["name"] for i in cmd["new"]] or ["NOSUCH"])
+                if h.get("extra"):
+                    for x in ("cas", "dsk"):
+                        if x != cmd["sw"]:
+                            argv += ["--to_" + x, os.path.join(W, "extra%d.%s" % (k, x))]
                 code, out = run_main(file_util, argv)
             hooks = [dict({"ev": "", "exists": False, "sniffed": "", "wrote": False}, **{k2: v for k2, v in e.items() if k2 in ("ev", "exists", "sniffed", "wrote")})
                      for e in _verif.drain() if e["ev"] in ("Open", "Save") and e.get("name") == t]
